@@ -33,6 +33,8 @@
 #include <iostream>
 #include <sstream>
 #include <coroutine>
+#include <csetjmp>
+#include <optional>
 #include "common.h"
 #include <cocls/async.h>
 #include <cocls/with_allocator.h>
@@ -246,12 +248,41 @@ struct call_rec {
     std::size_t sz = 0;
 };
 thread_local call_rec last_alloc, last_dealloc;
+thread_local std::size_t last_req = 0;     // size of the most recent request, recorded before the policy is entered
+
+// A failed library `assert` (static_storage::alloc: frame + trailer larger than the buffer) leaves the guarded call
+// instead of aborting the harness: glibc's assert calls __assert_fail, which must not return and must not throw.
+static thread_local std::jmp_buf *assert_jmp = nullptr;
+extern "C" [[noreturn]] void __assert_fail(const char *e, const char *f, unsigned int l, const char *fn) noexcept {
+    if (assert_jmp) {
+        std::jmp_buf *j = assert_jmp;
+        assert_jmp = nullptr;
+        std::longjmp(*j, 1);
+    }
+    std::fprintf(stderr, "%s:%u: %s: Assertion `%s' failed.\n", f, l, fn ? fn : "?", e);
+    std::abort();
+}
+// runs fn(); false if a library assertion fired inside (nothing with a destructor may be alive inside fn at that
+// point: the only such point is the first statement of static_storage::alloc)
+template <typename Fn>
+[[gnu::noinline]] static bool guarded(Fn &&fn) {
+    std::jmp_buf jb;
+    if (setjmp(jb)) {
+        hk::region = 0;
+        return false;
+    }
+    assert_jmp = &jb;
+    fn();
+    assert_jmp = nullptr;
+    return true;
+}
 
 template <typename St>
 struct spy : St {
     using St::St;
     void *alloc(std::size_t sz) {
         hk::in_region r;
+        last_req = sz;
         void *p = St::alloc(sz);
         last_alloc = call_rec{true, p, sz};
         return p;
@@ -266,14 +297,14 @@ struct spy : St {
 // extra object of promise_extra_storage: every construction / destruction is registered by address
 struct extra_reg {
     static inline std::set<const void *> *live = nullptr;
-    static inline long ctor = 0, mctor = 0, dtor = 0, bad = 0;
+    static inline long ctor = 0, mctor = 0, dtor = 0, bad = 0, misaligned = 0;
     static inline const void *last_ctor = nullptr, *last_dtor = nullptr;
     static inline std::uint64_t last_dtor_tag = 0;
     static void reset() {
         hk::guard g;
         if (!live) live = new std::set<const void *>();
         live->clear();
-        ctor = mctor = dtor = bad = 0;
+        ctor = mctor = dtor = bad = misaligned = 0;
         last_ctor = last_dtor = nullptr;
         last_dtor_tag = 0;
     }
@@ -281,6 +312,7 @@ struct extra_reg {
         hk::guard g;
         if (moved) ++mctor; else ++ctor;
         if (!live->insert(p).second) ++bad;      // constructed over a live object
+        if (reinterpret_cast<std::uintptr_t>(p) % alignof(std::uint64_t)) ++misaligned;   // the object checks its own address
         last_ctor = p;
     }
     static void died(const void *p, std::uint64_t tag) {
@@ -452,13 +484,24 @@ static std::string extra_after_alloc(seq_state &st, S &stor, frame_rec &f, const
         // an offset is printed only when it is plausibly inside the frame's block (never an address-dependent number)
         if (obj && f.ptr && obj >= f.ptr && obj - f.ptr < (1 << 24)) os << (obj - f.ptr); else os << (obj ? "far" : "none");
         bool ok = obj && extra_reg::live->count(obj) == 1 && extra_reg::last_ctor == obj && extra_reg::bad == s0.b;
+        long mis = extra_reg::misaligned;
+        extra_reg::misaligned = 0;
         if (ok) {
-            // usable right away: read the magic, check it is the object the factory made, write a tag
-            std::uint64_t mg, tg;
-            std::memcpy(&mg, obj, 8);
-            std::memcpy(&tg, obj + 8, 8);
+            // usable right away through the storage's accessors (operator* for even frames, operator-> for odd ones):
+            // read the magic, check it is the object the factory made for *this* frame
             using T = std::remove_reference_t<decltype(*stor.inventory)>;
-            ok = mg == T::MAGIC && tg == st.next_tag - 1;
+            const T *acc = (f.id % 2 == 0) ? &(*stor) : stor.operator->();
+            std::uint64_t mg, tg;
+            if (f.id % 2 == 0) {
+                std::memcpy(&mg, &(*stor).magic, 8);
+                std::memcpy(&tg, &(*stor).tag, 8);
+            } else {
+                std::memcpy(&mg, &stor->magic, 8);
+                std::memcpy(&tg, &stor->tag, 8);
+            }
+            ok = reinterpret_cast<const char *>(acc) == obj && mg == T::MAGIC && tg == st.next_tag - 1;
+            // placed at frame + sz: aligned whenever the frame size is (always the case for a real coroutine frame)
+            if (f.sz % alignof(std::uint64_t) == 0 && mis != 0) ok = false;
             f.extra_tag = tg;
         }
         os << (ok ? ":ok" : ":bad");
@@ -495,7 +538,8 @@ static std::string op_alloc(seq_state &st, S &stor, std::size_t sz, int kind /* 
     last_dealloc = call_rec{};
     std::ostringstream os;
     if (kind == -1) {
-        f.ptr = static_cast<char *>(stor.alloc(sz));
+        if (!guarded([&] { f.ptr = static_cast<char *>(stor.alloc(sz)); }))
+            return "assert sz=" + std::to_string(last_req);
         f.sz = sz;
         if (f.ptr && sz) std::memset(f.ptr, f.pat, sz);
         os << "alloc#" << f.id << " sz=" << sz;
@@ -515,7 +559,10 @@ static std::string op_alloc(seq_state &st, S &stor, std::size_t sz, int kind /* 
             }
         };
         // `c` is the coroutine object: the frame exists, nothing of the body has run yet
-        async<void> c = mk();
+        std::optional<async<void>> copt;
+        if (!guarded([&] { copt.emplace(mk()); }))
+            return "assert sz=" + std::to_string(last_req);
+        async<void> &c = *copt;
         if (last_alloc.seen) { f.ptr = static_cast<char *>(last_alloc.ptr); f.sz = last_alloc.sz; }
         os << " sz=" << f.sz;
         if (!last_alloc.seen) os << " noalloc";
